@@ -164,6 +164,8 @@ func genBoxProps(c *Ctx, which string) {
 	}
 	genConfRecords(c, which, seeds)
 	genIndexedFiles(c, which, files, names)
+	genModelBoxes(c, which)
+	genTrees(c, which, seeds)
 	if which != "C01" {
 		genMdatHistories(c, which)
 		for i, d := range files {
